@@ -6,6 +6,17 @@ const v2pkg = "app/core/hydra/swamp/chronicler/v2"
 
 var Checks = []CheckDef{
 	{
+		ID: "C05", Title: "Close and reload preserve every record exactly",
+		Claim:   "bounded symbolic execution of the real treasure setters/getters, ConvertToByte and LoadFromByte (the exact pair the chronicler uses to store and reload a record) for every one of the 14 content types with a fully symbolic value (strings/byte arrays/uint32 sets up to 2 elements; zero-like values included) and symbolic created/updated/expiry/created-by metadata: after encode + decode into a fresh record the key, metadata, existence of content, content type and value are identical",
+		Trusted: "encoding/gob is a contract model written from its documentation (zero-valued fields are not transmitted, also behind non-nil pointers; decoding leaves absent fields untouched); the model is validated against the real gob on every run by native replay of sampled paths and of every counter-example",
+		Harnesses: []HarnessDef{
+			{Pkg: "app/core/hydra/swamp/treasure", Func: "VerifC05Reload", Quick: map[string]int{}, Thorough: map[string]int{}, Covers: []string{"end"}},
+		},
+		Assumptions: []string{"float values are not NaN (NaN != NaN would make the equality oracle vacuous)", "strings / byte arrays / uint32 sets up to 2 elements"},
+		Stubs:       []string{"encoding/gob Encoder/Decoder = contract model (opaque 8-byte token)"},
+		Outside:     []string{"histories of several operations before the close (covered per operation by C06)", "the wire conversion in the gateway"},
+	},
+	{
 		ID: "C07", Title: "Ordered index reads return the correctly sorted, ranged page",
 		Claim:   "bounded symbolic execution of the real swamp/beacon code on an in-memory swamp: 2-3 records whose sort attribute (key / creation / update / expiry time / int64 value) is symbolic (the solver decides every relative order, ties and zero = attribute absent), the index optionally built before one mutation (insert after the build, update that moves the sort value, delete), then an ordered read in either direction with symbolic offset, limit and time window (each bound absent or symbolic): the page equals filter(attribute present, from <= ts < to) -> sort -> drop offset -> take limit of a reference model, compared tie-insensitively, with no duplicates",
 		Trusted: "sort.Slice is an insertion sort calling the real less closure; background goroutines at lowest priority; clock symbolic",
